@@ -140,7 +140,7 @@ def showEv (stores : Bool) : Ev → Option String
   | .cb k seq f o => some s!"cb {showKind k} {seq} f={b01 f} o={b01 o}"
   | .cbExit k f => some s!"cx {showKind k} f={b01 f}"
   | .store off n f o => if stores then some s!"st {off} {n} f={b01 f} o={b01 o}" else none
-  | .deliver b o => some s!"dl {toHex b} o={b01 o}"
+  | .deliver b o n => some s!"dl {toHex b} o={b01 o} n={b01 n}"
   | .clockRead v => some s!"clk {v}"
   | .assertFail => some "assert"
   | .oob => some "oob"
@@ -181,6 +181,7 @@ def opOf (j : Json) : Op :=
     | "close" => .close
     | "trace" => .trace ((a[1]!.getStr?).toOption.getD "") (argsOf a[2]!)
     | "enable" => .enable ((a[1]!.getNat?).toOption.getD 0 != 0)
+    | "fin" => .fin
     | _ => .query
   | _ => .query
 
